@@ -15,9 +15,12 @@ Inductive case :=
 (* one admitted session of np processes, forced to end in the given way; impl: the event ledger
    (subscriptions, CloseSession, Run/Stop per process, pending flag after return), the class of the
    returned error, the number of processes still inside Run after Execute returned, and whether
-   the same session id was admitted again *)
+   the same session id was admitted again; impl_led: the Broadcast ([LSend]) and CloseSession
+   ([LClose]) calls of the session on the recording Communication, in the order they were made, seen
+   after Execute returned (Model Part 11; also in Long and Batch) *)
 | Sess (r : role) (o : outcome) (ph : phase) (np : nat)
        (impl_evs : list ev) (impl_ret : ret) (impl_live_after : nat) (impl_reuse : bool)
+       (impl_led : list lev)
 (* operations on the real StreamManager over S sessions x P peers x X streams; [fails]: for each
    stream whether its Close() returns an error (scripted in the mock stream; the model of
    ReleaseStreams does not depend on it - Model.sm_release_f) *)
@@ -69,7 +72,7 @@ Inductive case :=
    timeout); reached = the schedule was reached (the first session was live before and after the
    duplicate was decided); impl: see Model.long_ok *)
 | Long (errk : nat) (late reached first_live dup_admitted : bool) (maxlive : nat)
-       (pend_after reuse : bool)
+       (pend_after reuse : bool) (impl_led : list lev)
 (* ONE session with a batch of np processes (each a scripted process object of its own, some returning
    from Run at once, some staying inside; in half of the cases under GOMAXPROCS(1)), forced to end in
    the given way; retry: a process of the first round fails with a SubsetError and the first process is
@@ -80,7 +83,7 @@ Inductive case :=
    (refused, (Run calls, Stop calls per process of the duplicate)) *)
 | Batch (r : role) (o : outcome) (ph : phase) (retry : bool) (np : nat)
         (impl_evs : list ev) (impl_maxsim : list nat) (impl_ret : ret) (impl_live_after : nat)
-        (impl_reuse : bool) (dup : option (bool * (list nat * list nat)))
+        (impl_reuse : bool) (dup : option (bool * (list nat * list nat))) (impl_led : list lev)
 (* a batch of np processes requested while a session with its id is live; impl: was it refused, Run /
    Stop calls per process, processes inside Run and pending flag after everything ended, re-use *)
 | BatchRefused (np : nat) (refused : bool) (bruns bstops : list nat) (live_after : nat)
@@ -174,6 +177,11 @@ Definition nsids (sids : list nat) : nat := S (fold_left Nat.max sids 0).
 Definition admitted_count (n : nat) (sid : nat -> nat) (adm : nat -> bool) (s : nat) : nat :=
   length (filter (fun t => Nat.eqb (sid t) s && adm t) (seq 0 n)).
 
+(* the ledger of the session against the model's (Execute with as many sends): the same number of
+   sends that no CloseSession follows *)
+Definition led_agree (led : list lev) : bool :=
+  Nat.eqb (open_sends led) (open_sends (exec_ledger (count_sends led) 0)).
+
 Definition agree (c : case) : bool :=
   match c with
   | Conc sids sched fin refused maxlive pend_after reuse =>
@@ -189,9 +197,10 @@ Definition agree (c : case) : bool :=
                  (seq 0 (nsids sids))
       (* after every session ended: same pending flags *)
       && forallb (fun s => Bool.eqb (pend st2 s) (nth s pend_after true)) (seq 0 (nsids sids))
-  | Sess r o ph np evs rt live reuse =>
+  | Sess r o ph np evs rt live reuse led =>
       nats_eqb (summary np (session_trace r o ph np)) (summary np evs)
       && ret_eqb (session_ret r o ph) rt
+      && led_agree led
   | Streams nS nP nX fails ops impl =>
       Nat.eqb (length fails) nX && sobss_eqb (model_sobs nS nP nX (sm_empty, fun _ => 0) ops) impl
   | Storm n rounds =>
@@ -219,11 +228,12 @@ Definition agree (c : case) : bool :=
       ok && adds_below nS nP ops && all_accepted nP nX ops
       && nats_eqb (cvec nX (snd fin)) closed
       && (match lft with [] => true | _ => rows_eqb (snap nS nP (fst fin)) lft end)
-  | Long _ _ reached first_live dup_admitted _ _ _ =>
+  | Long _ _ reached first_live dup_admitted _ _ _ led =>
       (* a schedule the machine was too slow for says nothing *)
-      negb reached || (first_live && Bool.eqb dup_admitted (negb long_dup_refused))
-  | Batch r o ph retry np evs maxsim rt live reuse dup =>
-      feasible r o && (negb retry || match o with ProcessError => true | _ => false end)
+      (negb reached || (first_live && Bool.eqb dup_admitted (negb long_dup_refused)))
+      && led_agree led
+  | Batch r o ph retry np evs maxsim rt live reuse dup led =>
+      led_agree led && feasible r o && (negb retry || match o with ProcessError => true | _ => false end)
       && nats_eqb (summary np (batch_trace PerIteration PerIteration r o ph retry np)) (summary np evs)
       && nats_eqb (batch_maxsim PerIteration r o ph retry np) maxsim
       && ret_eqb (batch_ret r o ph retry) rt
@@ -249,7 +259,8 @@ Definition judge (c : case) : bool :=
       && forallb (fun k => Nat.leb k 1) maxlive
       && forallb negb pend_after
       && forallb (fun b => b) reuse
-  | Sess r o ph np evs rt live reuse => cleanup_ok np evs && Nat.eqb live 0 && reuse
+  | Sess r o ph np evs rt live reuse led =>
+      cleanup_ok np evs && Nat.eqb live 0 && reuse && released_ok led
   | Streams nS nP nX fails ops impl => streams_ok nS nP nX ops impl
   | Storm n rounds =>
       forallb (fun r => conc_ok n (fun _ => 0) (fun t => negb (nth t (fst r) true))
@@ -262,10 +273,10 @@ Definition judge (c : case) : bool :=
   | RaceComm _ _ reports leftover unreleased _ _ =>
       Nat.eqb reports 0 && Nat.eqb leftover 0 && Nat.eqb unreleased 0
   | SRace nS nP nX ops closed lft ok => ok && Nat.eqb (length closed) nX && srace_ok closed lft
-  | Long _ _ reached first_live dup_admitted maxlive pend_after reuse =>
-      negb reached || long_ok first_live dup_admitted maxlive pend_after reuse
-  | Batch r o ph retry np evs maxsim rt live reuse dup =>
-      batch_ok (negb retry) np evs maxsim && Nat.eqb live 0 && reuse && dup_ok dup
+  | Long _ _ reached first_live dup_admitted maxlive pend_after reuse led =>
+      (negb reached || long_ok first_live dup_admitted maxlive pend_after reuse) && released_ok led
+  | Batch r o ph retry np evs maxsim rt live reuse dup led =>
+      batch_ok (negb retry) np evs maxsim && Nat.eqb live 0 && reuse && dup_ok dup && released_ok led
   | BatchRefused np refused bruns bstops live pend_after reuse =>
       refused_ok refused bruns bstops && Nat.eqb live 0 && negb pend_after && reuse
   | Hist k _ _ _ refused notrun stopbad leftover unclosed stuck _ dupadm dupruns probes =>
@@ -278,7 +289,7 @@ Definition has_dup (l : list nat) : bool :=
 Definition tag (c : case) : N :=
   match c with
   | Conc sids _ _ _ _ _ _ => if has_dup sids then 1%N else 0%N
-  | Sess r o ph np _ _ _ _ =>
+  | Sess r o ph np _ _ _ _ _ =>
       (2 + (match o with Success => 0 | ProcessError => 2 | CoordinatorSilent => 4
                         | GlobalTimeout => 6 | Cancelled => 8 end)
          + (match r with Coord => 0 | Peer => 1 end)
@@ -291,8 +302,8 @@ Definition tag (c : case) : N :=
   | CommW _ _ wfails _ _ => if existsb (fun b => b) wfails then 39%N else 38%N
   | RaceComm _ _ _ _ _ _ _ => 40%N
   | SRace _ _ _ _ _ lft _ => match lft with [] => 42%N | _ => 41%N end
-  | Long errk late _ _ _ _ _ _ => (43 + 2 * N.of_nat errk + (if late then 1 else 0))%N
-  | Batch r o ph retry _ _ _ _ _ _ dup =>
+  | Long errk late _ _ _ _ _ _ _ => (43 + 2 * N.of_nat errk + (if late then 1 else 0))%N
+  | Batch r o ph retry _ _ _ _ _ _ dup _ =>
       (100 + (match o with Success => 0 | ProcessError => 2 | CoordinatorSilent => 4
                          | GlobalTimeout => 6 | Cancelled => 8 end)
            + (match r with Coord => 0 | Peer => 1 end)
